@@ -697,6 +697,224 @@ func runFinOvertake(id int, xIsClient bool, yClosesFirst bool) {
 	hv.Flush()
 }
 
+// Locally created (requesting side) Unreliable tubes closed around the arrival of the peer's RESP.
+// The peer's outgoing frames are held (latency) so that the tube is still `created` when the local
+// calls start; variants:
+//   gated-close-after-resp  the initiation goroutine is held at the yield point ut.initiate.initiated after
+//                           the RESP made the tube `initiated`; Close swaps the state and reaches its
+//                           wait for initiateDone; only then the initiation goroutine continues
+//   parked-write / parked-read  a goroutine parked in Write / Read (waiting for initiation) calls Close
+//                           as soon as its call returns (run with GOMAXPROCS(1) and default)
+//   close-while-created     Close before the RESP
+// Oracle (property text): every call returns within the bound; the first Close gives nil and a second
+// io.EOF; Write and Read after Close give io.EOF; WaitForClose and both Stops return; the goroutine
+// count settles.
+func runUnrelLocal(id int, variant string, oneP bool) (okRun bool) {
+	desc := fmt.Sprintf("#%d unreliable-local %s GOMAXPROCS=%s", id, variant, map[bool]string{true: "1", false: "default"}[oneP])
+	fmt.Fprintf(os.Stderr, "START %s\n", desc)
+	goBefore := runtime.NumGoroutine()
+	v := verdict{ok: true}
+	fail := func(sig, what string) {
+		if v.ok {
+			v = verdict{false, sig, what}
+		}
+	}
+	var rs []string
+	var rsMu sync.Mutex
+	note := func(f string, a ...interface{}) { rsMu.Lock(); rs = append(rs, fmt.Sprintf(f, a...)); rsMu.Unlock() }
+
+	var visits atomic.Int32
+	var armed atomic.Bool
+	arrived := make(chan struct{}, 64)
+	release := make(chan struct{}, 64)
+	closeAtWait := make(chan struct{}, 4)
+	if variant == "gated-close-after-resp" {
+		armed.Store(true)
+		common.SetVerifYield(func(pt string) {
+			switch pt {
+			case "ut.initiate.initiated": // the initiation goroutine has seen u.initiated and is about to re-read the state
+				if visits.Add(1) >= 1 && armed.Load() {
+					select {
+					case arrived <- struct{}{}:
+					default:
+					}
+					select {
+					case <-release:
+					case <-time.After(5 * time.Second): // watchdog: never keep the code under test parked
+					}
+				}
+			case "ut.close.waitinit":
+				select {
+				case closeAtWait <- struct{}{}:
+				default:
+				}
+			}
+		})
+		defer common.SetVerifYield(nil)
+	}
+
+	ca, cb, _ := newLink(uint64(id) + 4242)
+	cm := tubes.Client(ca, &tubes.Config{Log: quiet()})
+	sm := tubes.Server(cb, &tubes.Config{Log: quiet()})
+	cb.pause() // the RESP (and everything else the peer sends) is held
+	u, err := cm.CreateUnreliableTube(common.ExecTube)
+	var st tubes.Tube
+	if err == nil {
+		ok, _, _ := within(3*time.Second, func() error {
+			t, e := sm.Accept()
+			st = t
+			return e
+		})
+		if !ok || st == nil {
+			err = fmt.Errorf("accept")
+		}
+	}
+	if err != nil {
+		armed.Store(false)
+		for k := 0; k < 8; k++ {
+			release <- struct{}{}
+		}
+		cb.resume()
+		within(bound, func() error { cm.Stop(); return nil })
+		within(bound, func() error { sm.Stop(); return nil })
+		ca.Close()
+		cb.Close()
+		hv.Emit(hv.Case{Class: "setup-skipped", Desc: desc + " => setup failed (skipped)", Spec: true})
+		hv.Flush()
+		return true
+	}
+	closeRes := make(chan string, 1)
+	doClose := func() {
+		ok, e, d := within(bound, func() error { return u.Close() })
+		note("Close=%v/%q(%dms)", ok, e, d.Milliseconds())
+		if !ok {
+			s0, idn, sdn, cl := u.VerifUnreliableState()
+			fail("C16:unreliable-close-did-not-return", fmt.Sprintf("Unreliable.Close did not return within %v (state %d, initiateDone=%v senderDone=%v closed=%v)", bound, s0, idn, sdn, cl))
+		} else if e != "" {
+			fail("C16:unreliable-close-result", "first Close of an open tube returned "+e)
+		}
+		closeRes <- e
+	}
+	switch variant {
+	case "gated-close-after-resp":
+		cb.resume()
+		// wait until the initiation goroutine is back at the top of its loop with the tube initiated
+		gated := false
+		for k := 0; k < 20 && !gated; k++ {
+			select {
+			case <-arrived:
+				if s0, _, _, _ := u.VerifUnreliableState(); s0 == 1 {
+					gated = true
+				} else {
+					release <- struct{}{} // retransmission tick before the RESP: let it go round again
+				}
+			case <-time.After(2 * time.Second):
+				k = 20
+			}
+		}
+		note("initiation goroutine held after RESP=%v", gated)
+		go doClose()
+		select {
+		case <-closeAtWait:
+			time.Sleep(2 * time.Millisecond)
+		case <-time.After(2 * time.Second):
+		}
+		s0, idn, _, _ := u.VerifUnreliableState()
+		note("Close at its wait: state=%d initiateDone=%v", s0, idn)
+		armed.Store(false)
+		for k := 0; k < 8; k++ {
+			release <- struct{}{}
+		}
+	case "parked-write", "parked-read":
+		started := make(chan struct{})
+		go func() {
+			close(started)
+			if variant == "parked-write" {
+				_, e := u.Write([]byte("datagram"))
+				note("Write(parked)=%v", e)
+				if e != nil && e != io.EOF {
+					fail("C16:unreliable-write-result", "parked Write returned "+e.Error())
+				}
+			} else {
+				buf := make([]byte, 64)
+				n, e := u.Read(buf)
+				note("Read(parked)=%d/%v", n, e)
+			}
+			doClose()
+		}()
+		<-started
+		if variant == "parked-read" {
+			st.Write([]byte("hello")) // held behind the RESP
+		}
+		time.Sleep(3 * time.Millisecond)
+		cb.resume()
+	case "close-while-created":
+		go doClose()
+		time.Sleep(2 * time.Millisecond)
+		cb.resume()
+	}
+	select {
+	case <-closeRes:
+	case <-time.After(bound + 4*time.Second):
+		fail("C16:unreliable-close-did-not-return", "the goroutine that was to call Close never got there (its Write/Read did not return)")
+	}
+	if v.ok {
+		if ok, e, _ := within(bound, func() error { return u.Close() }); !ok || e != io.EOF.Error() {
+			fail("C16:unreliable-second-close", fmt.Sprintf("second Close: returned=%v err=%q, want io.EOF", ok, e))
+		}
+		if ok, e, _ := within(bound, func() error { _, e := u.Write([]byte("late")); return e }); !ok || e != io.EOF.Error() {
+			fail("C16:write-after-close-succeeded", fmt.Sprintf("Write after Close: returned=%v err=%q, want io.EOF", ok, e))
+		}
+		if ok, e, _ := within(bound, func() error {
+			buf := make([]byte, 64)
+			for k := 0; k < 4; k++ { // buffered datagrams may still be returned before end-of-stream
+				if _, e := u.Read(buf); e != nil {
+					return e
+				}
+			}
+			return nil
+		}); !ok || e != io.EOF.Error() {
+			fail("C16:unreliable-read-after-close", fmt.Sprintf("Read after Close: returned=%v err=%q, want io.EOF", ok, e))
+		}
+	}
+	okw, _, dw := within(bound, func() error { u.WaitForClose(); return nil })
+	note("WaitForClose=%v(%dms)", okw, dw.Milliseconds())
+	if !okw {
+		fail("C16:waitforclose-did-not-complete", "Unreliable.WaitForClose did not return after Close")
+	}
+	oks, es, _ := within(bound, func() error { return st.Close() })
+	note("peer.Close=%v/%q", oks, es)
+	if !oks {
+		fail("C16:unreliable-close-did-not-return", "peer side Close did not return")
+	}
+	for _, m := range []struct {
+		n string
+		m *tubes.Muxer
+	}{{"client", cm}, {"server", sm}} {
+		ok, _, d := within(bound, func() error { m.m.Stop(); return nil })
+		note("%s.Stop=%v(%dms)", m.n, ok, d.Milliseconds())
+		if !ok {
+			fail("C16:stop-did-not-return", m.n+" Muxer.Stop did not return within the bound")
+		}
+	}
+	ca.Close()
+	cb.Close()
+	if goAfter := settle(goBefore); v.ok && goAfter > goBefore {
+		time.Sleep(1500 * time.Millisecond)
+		if goAfter = settle(goBefore); goAfter > goBefore {
+			fail("C16:goroutine-leak", fmt.Sprintf("goroutines before=%d after both muxers stopped=%d", goBefore, goAfter))
+		}
+	}
+	rsMu.Lock()
+	full := desc + " => " + strings.Join(rs, ", ")
+	rcopy := append([]string(nil), rs...)
+	rsMu.Unlock()
+	hv.Emit(hv.Case{Class: "unreliable-local-close", Desc: full, Spec: v.ok, Sig: v.sig, What: v.what, NT: true, Key: full,
+		Replay: map[string]interface{}{"scenario": desc, "results": rcopy}})
+	hv.Flush()
+	return v.ok
+}
+
 type verdict struct {
 	ok   bool
 	sig  string
@@ -731,6 +949,24 @@ func scenarios() []scen {
 }
 
 func child(from, to int) {
+	if from == -2 || from == -3 { // locally created unreliable tubes; -3: one P
+		oneP := from == -3
+		if oneP {
+			runtime.GOMAXPROCS(1)
+		}
+		k := 0
+		for rep := 0; rep < hv.Scale(3, 30); rep++ {
+			for _, vr := range []string{"gated-close-after-resp", "parked-write", "parked-read", "parked-write", "parked-read", "close-while-created"} {
+				if !runUnrelLocal(k, vr, oneP) {
+					// a call that never returned leaves goroutines of the code under test behind (possibly
+					// spinning): later scenarios in this process would only measure that
+					return
+				}
+				k++
+			}
+		}
+		return
+	}
 	if from < 0 { // the fin-overtakes-tail family
 		k := 0
 		for _, xc := range []bool{true, false} {
@@ -761,8 +997,10 @@ func main() {
 	all := scenarios()
 	const batch = 6
 	type job struct{ from, to int }
-	jobs := make(chan job, len(all)+1)
+	jobs := make(chan job, len(all)+4)
 	jobs <- job{-1, 0}
+	jobs <- job{-2, 0}
+	jobs <- job{-3, 0}
 	for i := 0; i < len(all); i += batch {
 		jobs <- job{i, i + batch}
 	}
